@@ -1,7 +1,8 @@
 """C20 -- proxy authentication is enforced on every entry path.
 
 Engine A with the REAL ProxyAuth addon (+ real NextLayer) in the hook chain; `proxyauth` is set per case to a single
-user, `any`, or an htpasswd file written for the case ({SHA} entries via hashlib).  A generated client conversation
+user, `any`, or an htpasswd file written for the case ({SHA} entries via hashlib next to $2b$ entries made with the
+bcrypt library, whose checker raises for passwords longer than 72 bytes).  A generated client conversation
 (1-6 items on one connection) enters through one of the paths
   regular / upstream: absolute-form requests, each with its own Proxy-Authorization presentation; optionally ending in a
                       CONNECT host:80 (with a presentation) followed by plain HTTP requests inside the tunnel
@@ -9,7 +10,8 @@ user, `any`, or an htpasswd file written for the case ({SHA} entries via hashlib
   socks5:             RFC 1928 greeting + RFC 1929 username/password + CONNECT + plain HTTP requests
 Presentations: valid (plain, ':' in the password, non-ASCII UTF-8, empty password, lower/upper-case scheme, several SP),
 wrong password / user / swapped, missing, empty, scheme only, bad base64, no colon, Bearer, right credentials in the wrong
-header, and a lenient zone (junk after the token, missing padding, HTAB separator, invalid UTF-8).
+header, validator-hostile ones (73-300 byte passwords, NUL inside the password, very long user names, invalid UTF-8
+passwords -- aimed at bcrypt users), and a lenient zone (junk after the token, missing padding, HTAB separator, invalid UTF-8).
 
 Oracle (M2, wire boundary): vf/ref/c20_basic.py (RFC 7617 split at the FIRST colon; reference validators that know the
 plaintext pairs) decides for every item accept / refuse / either; every request carries a unique path tag and every
@@ -41,7 +43,7 @@ LEVEL = "exploration"
 ENGINE = "sansio"
 BUDGET = {"quick": (500, 18), "thorough": (30000, 220)}
 WORKERS = {"quick": 4, "thorough": 16}
-REQUIRED = ["safety", "answer", "accept", "strip", "total", "path.regular-abs", "path.connect", "path.reverse", "path.transparent", "path.socks5", "path.upstream", "validator.single", "validator.any", "validator.htpasswd"]
+REQUIRED = ["safety", "answer", "accept", "strip", "total", "path.regular-abs", "path.connect", "path.reverse", "path.transparent", "path.socks5", "path.upstream", "validator.single", "validator.any", "validator.htpasswd", "bcrypt.user_presented", "bcrypt.long_password"]
 TECHNIQUE = "runtime monitoring: sans-io conversations with the real ProxyAuth addon, reference Basic parser/validators, tag + credential search on the wire"
 RULE = (
     "case = (validator kind, entry path, conversation of 1-6 items each with a credential presentation kind, segmentation, schedule); "
@@ -71,7 +73,7 @@ ALNUM = "abcdefghijklmnopqrstuvwxyzABCDEFGHIJKLMNOPQRSTUVWXYZ0123456789"
 NONASCII = ["é", "ü", "ж", "日本", "ß", "😀"]
 VALID_KINDS = ["valid", "valid", "valid", "valid-colon-pw", "valid-colon-pw", "valid-nonascii", "valid-empty-pw", "valid-case-scheme", "valid-spaces"]
 BAD_KINDS = ["wrong-pw", "wrong-user", "swapped", "missing", "missing", "empty-value", "scheme-only", "bad-b64", "no-colon", "bearer", "other-header",
-             "trailing-junk", "no-padding", "tab-sep", "invalid-utf8"]
+             "trailing-junk", "no-padding", "tab-sep", "invalid-utf8", "long-pw", "long-pw", "long-pw", "nul-pw", "long-user", "invalid-utf8-pw"]
 
 _TMP = {}
 
@@ -110,10 +112,16 @@ def make_validator(r):
         u, p = make_pair(r, r.choice(["plain", "plain", "nonascii", "empty"]))
         return rb.RefSingle(u, p), f"{u}:{p}", [(u, p)]
     pairs = {}
+    bcrypt_users = []
     for fl in ["plain", "colon", "colon", "nonascii", "empty"]:
         u, p = make_pair(r, fl)
         pairs[u] = p
-    v = rb.RefHtpasswd(pairs)
+    for fl in ["plain", r.choice(["colon", "nonascii", "plain"])]:
+        # bcrypt ($2b$) entries: their validator RAISES for passwords longer than 72 bytes
+        u, p = make_pair(r, fl)
+        pairs[u] = p
+        bcrypt_users.append(u)
+    v = rb.RefHtpasswd(pairs, bcrypt_users, r)
     d = tmpdir()
     _TMP["n"] += 1
     path = os.path.join(d, f"htpasswd-{_TMP['n']}")
@@ -146,6 +154,10 @@ def presentation(r, kind, validator, pairs, fresh=False):
     """-> dict(kind, value: str|None (header value), secrets: [bytes] (strings that must not travel upstream), other_header: bool, pair)"""
     want = {"valid-colon-pw": "colon", "valid-nonascii": "nonascii", "valid-empty-pw": "empty"}.get(kind, "plain")
     base = pick_pair(r, validator, pairs, want) or pick_pair(r, validator, pairs, "plain") or (pairs[0] if pairs else make_pair(r, "plain"))
+    hostile = kind in ("long-pw", "nul-pw", "invalid-utf8-pw")
+    if hostile and getattr(validator, "bcrypt_users", None) and r.random() < 0.8:
+        bu = r.choice(sorted(validator.bcrypt_users))  # validator-hostile input aimed at a user whose entry is a bcrypt hash
+        base = (bu, validator.pairs[bu])
     if fresh:
         base = make_pair(r, "plain")  # unrelated to any configured credential
     u, p = base
@@ -184,10 +196,21 @@ def presentation(r, kind, validator, pairs, fresh=False):
         out.update(value="Basic " + b64(u + ":" + p).rstrip("="))
     elif kind == "tab-sep":
         out.update(value="Basic\t" + b64(u + ":" + p))
+    elif kind == "long-pw":
+        n = r.choice([73, 74, 80, 128, 200, 300])
+        longpw = r.choice([word(r, n), p + "x" * n, (p + "y" * 72)[:72] + word(r, n - 72), "é" * (n // 2 + 1)])
+        out.update(value="Basic " + b64(u + ":" + longpw))
+    elif kind == "nul-pw":
+        out.update(value="Basic " + b64(u + ":" + r.choice([p[:2] + "\x00" + p[2:], p + "\x00", "\x00" + p, p + "\x00" + word(r, 80)])))
+    elif kind == "long-user":
+        out.update(value="Basic " + b64(u + word(r, r.choice([80, 300, 2000])) + ":" + p))
+    elif kind == "invalid-utf8-pw":
+        out.update(value="Basic " + base64.b64encode(u.encode() + b":" + r.choice([b"\xff" * 80, p.encode() + b"\xc3", b"\xed\xa0\x80" + p.encode()])).decode())
     elif kind == "invalid-utf8":
         out.update(value="Basic " + base64.b64encode(u.encode() + b":" + p.encode() + b"\xff\xfe").decode())
     # "wrong header" presentations are evaluated as "nothing presented in the right header"
     out["expect"] = "refuse" if out["other_header"] else rb.expectation(out["value"], validator)
+    out["bcrypt_user"] = u in getattr(validator, "bcrypt_users", ())
     tok = out["value"].split()[-1] if out["value"] and len(out["value"].split()) >= 2 else None
     out["token"] = tok.encode("latin-1", "replace") if tok and len(tok) >= 12 else None
     return out
@@ -263,6 +286,11 @@ def run_case(ctx, tctx, chain):
                 u = "W" + u
             elif pk == "swapped":
                 u, p = (p or "e"), u
+        elif pk in ("long-pw", "nul-pw") and getattr(validator, "bcrypt_users", None):
+            u = r.choice(sorted(validator.bcrypt_users))
+            p = validator.pairs[u]
+            p = (word(r, r.choice([73, 80, 200, 255])) if r.random() < 0.5 else (p + "x" * 255)[:r.choice([73, 100, 255])]) if pk == "long-pw" else p[:2] + "\x00" + p[2:]
+            pk = "socks-" + pk
         else:
             pk = "wrong-pw" if validator.kind != "any" else "valid"
             u, p = make_pair(r, "plain")
@@ -315,6 +343,12 @@ def run_case(ctx, tctx, chain):
                 items.append(http_item(r, k, "origin", host, port, pres, "Proxy-Authorization"))
                 k += 1
 
+    for it in items:
+        pr = it.get("pres") or {}
+        if pr.get("bcrypt_user") or (it["what"] == "socks" and it["pres"]["pair"][0] in getattr(validator, "bcrypt_users", ())):
+            ctx.count("bcrypt.user_presented")
+            if pr.get("kind", "").endswith("long-pw"):
+                ctx.count("bcrypt.long_password")
     # ---- expectations
     authenticated = False
     auth_by = None
